@@ -137,8 +137,12 @@ def random_tuples(rng, n):
         D["m_w"].append([W(a), S(b)])
         D["five"].append([I(rng.choice([0, 7, 77, 255])), I(rng.choice([-7, 7, -32768])), S(a), C(rng.choice(ADV_CHARS)),
                           B(rng.random() < .5)])
-        fa = rng.choice([0.0, -0.0, 1.0, 1.5, 1e-7, 1e21, float("inf"), -2.25, 0.1])
-        fb = rng.choice([0.0, -0.0, 1.0, 1.5, 0.1, 3.0e10, -1.0])
+        fa = rng.choice([0.0, -0.0, 1.0, 1.0 + 2.220446049250313e-16, 1.5, 1e-7, 1e-13, 2e-13, 1e21, float("inf"),
+                         -2.25, 0.1, 0.30000000000000004, 0.3, 5e-324, 2.2250738585072014e-308, 123456789.12345678,
+                         123456789.12345679, 1e15, 1e15 + 0.125])
+        # the second argument is an f32: use values that are exactly representable (and stay distinct) as f32
+        fb = rng.choice([0.0, -0.0, 1.0, 1.0 + 2.0 ** -23, 1.5, 0.125, 2.0 ** 35, -1.0, 2.0 ** -27, 2.0 ** -26,
+                         16777216.0, 16777218.0])
         D["f_f"].append([{"t": "float", "bits": fbits(fa)}, {"t": "float", "bits": fbits(fb)}])
     return D
 
